@@ -330,6 +330,9 @@ func (h *H) do(method, path string, o reqOpt) Resp {
 			var idx types.Index
 			_ = json.Unmarshal(rr.Body.Bytes(), &idx)
 			out.Body = "[" + strings.Join(h.tk.descList(idx.Manifests), ",") + "]"
+			if res.StatusCode == 200 && len(idx.Manifests) > 0 {
+				_ = h.tk.contentName(rr.Body.Bytes()) // learn the name R(...) of a response document with these bytes
+			}
 			out.Ct = mtToken(res.Header.Get("Content-Type"))
 			if l := res.Header.Get("Link"); l != "" {
 				if i := strings.Index(l, ">"); i > 1 {
